@@ -132,6 +132,39 @@ def _est_configs():
     return out
 
 
+def param_changes(name):
+    """set_params menus (the only legitimate way besides the constructor to change get_params)"""
+    if name.startswith("ParzenWindowClassifier"):
+        return [{"n_neighbors": 1}, {"metric_dict": {"gamma": 2.0}}]
+    if name.startswith("SlidingWindowClassifier"):
+        return [{"window_size": 2}, {"window_size": None}]
+    if name.startswith("MixtureModelClassifier"):
+        return [{"weight_mode": "similarities" if "responsibilities" in name else "responsibilities"}]
+    if name.startswith("SklearnClassifier[LogisticRegression"):
+        return [{"estimator__C": 0.05}]
+    if name.startswith("SklearnClassifier[GaussianNB"):
+        return [{"estimator__var_smoothing": 0.5}]
+    if name.startswith("SklearnClassifier[DecisionTree"):
+        return [{"estimator__max_depth": 1}]
+    if name.startswith("SklearnClassifier[SGD") or name.startswith("SklearnRegressor[SGD"):
+        return [{"estimator__alpha": 0.5}]
+    if name.startswith("AnnotatorEnsembleClassifier"):
+        return [{"voting": "soft" if "hard" in name else "hard"}]
+    if name.startswith("AnnotatorLogisticRegression"):
+        return [{"max_iter": 3}]
+    if name.startswith("NICKernelRegressor"):
+        return [{"kappa_0": 2.0, "mu_0": 1.0}]
+    if name.startswith("NadarayaWatsonRegressor"):
+        return [{"metric_dict": {"gamma": 2.0}}]
+    if name.startswith("SklearnRegressor[LinearRegression"):
+        return [{"estimator__fit_intercept": False}]
+    if name.startswith("SklearnNormalRegressor[BayesianRidge"):
+        return [{"estimator__fit_intercept": False}]
+    if name.startswith("SklearnNormalRegressor[GaussianProcess"):
+        return [{"estimator__alpha": 0.5}]
+    return []
+
+
 EST_CONFIGS = None
 
 
@@ -144,7 +177,7 @@ def est_configs():
 
 def bounds(tier):
     return {"estimator_configs": [c[0] for c in est_configs()], "datasets": {k: {"X": v[0], "y": v[1], "w": v[2]} for k, v in DATA.items()},
-            "ops": "fit(D1..D4), partial_fit(D1,D2,D4) where available, predict(Q)", "depth": 3 if tier == "quick" else 4,
+            "ops": "fit(D1..D4), partial_fit(D1,D2,D4) where available, predict(Q), set_params(<1-2 changes per estimator>)", "depth": 3 if tier == "quick" else 4,
             "stream_subjects": [s.name for s in SS.ALL], "stream_horizon": 3, "query_points": QX.tolist()}
 
 
@@ -179,6 +212,9 @@ def _apply(kind, opts, est, op):
         warnings.simplefilter("ignore")
         if op[0] == "predict":
             return _observe(kind, opts, est)[0]
+        if op[0] == "set":
+            est.set_params(**copy.deepcopy(op[1]))
+            return "ok"
         X, y, w = _xyw(op[1], kind, opts.get("multi", False))
         try:
             f = getattr(est, op[0])
@@ -203,6 +239,17 @@ def check_estimator(acc, name, kind, factory, opts, depth):
     ops = [("fit", d) for d in DATA] + [("predict", None)]
     if opts.get("partial"):
         ops += [("partial_fit", d) for d in ("D1", "D2", "D4")]
+    changes = param_changes(name)
+    ops += [("set", c) for c in changes]
+
+    def fresh_with(h):
+        """fresh object with the parameter changes of history h applied (set_params is the documented way to change parameters)"""
+        f, _ = factory()
+        for o in h:
+            if o[0] == "set":
+                f.set_params(**copy.deepcopy(o[1]))
+        return f
+
     est0, owned0 = factory()
     owned_ref = copy.deepcopy(owned0)
     p0 = F.params_fp(est0)
@@ -221,9 +268,10 @@ def check_estimator(acc, name, kind, factory, opts, depth):
                 wit = dict(cfg, history=[list(o) for o in h2], datasets={k: {"X": v[0], "y": v[1], "w": v[2]} for k, v in DATA.items()})
                 rep = {"what": "est", "name": name, "history": [list(o) for o in h2]}
                 size = len(h2)
-                # (a) parameters
-                if F.params_fp(est2) != p0:
-                    changed = _changed_params(factory()[0], est2)
+                # (a) parameters: exactly what the constructor + the set_params calls of the history imply
+                p_exp = F.params_fp(fresh_with(h2)) if any(o[0] == "set" for o in h2) else p0
+                if F.params_fp(est2) != p_exp:
+                    changed = _changed_params(fresh_with(h2), est2)
                     acc.violation(name, "get_params_changed", "after %s: parameters %s changed" % (_fmt(h2), changed), wit,
                                   {"params": ",".join(changed), "last_op": op[0]}, rep, size)
                 for k, dct in owned2.items():
@@ -231,10 +279,15 @@ def check_estimator(acc, name, kind, factory, opts, depth):
                         acc.violation(name, "caller_dict_mutated", "after %s: caller-owned dict %s is now %r (was %r)" % (_fmt(h2), k, dct, owned_ref[k]),
                                       wit, {"param": k, "last_op": op[0]}, rep, size)
                 # (b) history freedom: compare with a fresh object driven through the documented suffix
-                if res == "ok" and op[0] != "predict":
+                last_set = max([i for i, o in enumerate(h2) if o[0] == "set"], default=-1)
+                last_fit0 = max([i for i, o in enumerate(h2) if o[0] == "fit"], default=None)
+                # parameter changes in the middle of an incremental history have no documented meaning: compare only when the
+                # documented suffix starts after the last set_params
+                comparable = op[0] not in ("predict", "set") and (last_set < 0 or (last_fit0 is not None and last_fit0 > last_set))
+                if res == "ok" and comparable:
                     last_fit = max([i for i, o in enumerate(h2) if o[0] == "fit"], default=None)
-                    suffix = [o for o in (h2[last_fit:] if last_fit is not None else h2) if o[0] != "predict"]
-                    fresh, _ = factory()
+                    suffix = [o for o in (h2[last_fit:] if last_fit is not None else h2) if o[0] not in ("predict", "set")]
+                    fresh = fresh_with(h2)
                     ok = True
                     for o in suffix:
                         if not _apply(kind, opts, fresh, o).startswith("ok"):
@@ -246,7 +299,7 @@ def check_estimator(acc, name, kind, factory, opts, depth):
                         acc.violation(name, "fit_depends_on_history", "after %s the object predicts %s, a fresh object driven through %s predicts %s" % (
                             _fmt(h2), _fmto(ob_used), _fmt(suffix), _fmto(ob_fresh)), wit, {"last_op": op[0]}, rep, size)
                     # (c) sliding window reference model
-                    if opts.get("window"):
+                    if "window" in opts and opts.get("window", 0) != 0 and name.startswith("SlidingWindowClassifier"):
                         Xs, ys, ws = [], [], []
                         has_w = True
                         for o in suffix:
@@ -259,9 +312,11 @@ def check_estimator(acc, name, kind, factory, opts, depth):
                                 has_w = False
                             else:
                                 ws += list(w)
-                        Xs, ys = np.array(Xs[-opts["window"]:]), np.array(ys[-opts["window"]:])
-                        wsw = np.array(ws[-opts["window"]:]) if has_w and len(ws) >= len(Xs) else None
-                        inner = copy.deepcopy(factory()[0].estimator)
+                        win = fresh_with(h2).window_size  # the window size configured by the constructor / set_params
+                        wn = win if win is not None else len(Xs)
+                        Xs, ys = np.array(Xs[-wn:]), np.array(ys[-wn:])
+                        wsw = np.array(ws[-wn:]) if has_w and len(ws) >= len(Xs) else None
+                        inner = copy.deepcopy(fresh_with(h2).estimator)
                         with warnings.catch_warnings():
                             warnings.simplefilter("ignore")
                             try:
@@ -272,13 +327,13 @@ def check_estimator(acc, name, kind, factory, opts, depth):
                         acc.traces_validated += 1
                         if not _same_obs(ob_used, ob_ref):
                             acc.violation(name, "window_model_differs", "after %s the sliding-window classifier predicts %s, a fresh estimator fitted on the "
-                                          "last %d samples predicts %s" % (_fmt(h2), _fmto(ob_used), opts["window"], _fmto(ob_ref)), wit,
+                                          "last %s samples predicts %s" % (_fmt(h2), _fmto(ob_used), win, _fmto(ob_ref)), wit,
                                           {"last_op": op[0]}, rep, size)
-                elif res.startswith("exc") and op[0] != "predict":
+                elif res.startswith("exc") and comparable:
                     # an operation that fails on a used object must fail on the fresh one as well
                     last_fit = max([i for i, o in enumerate(h2) if o[0] == "fit"], default=None)
-                    suffix = [o for o in (h2[last_fit:] if last_fit is not None else h2) if o[0] != "predict"]
-                    fresh, _ = factory()
+                    suffix = [o for o in (h2[last_fit:] if last_fit is not None else h2) if o[0] not in ("predict", "set")]
+                    fresh = fresh_with(h2)
                     r2 = "ok"
                     for o in suffix:
                         r2 = _apply(kind, opts, fresh, o)
@@ -305,7 +360,7 @@ def _changed_params(pristine, used):
 
 
 def _fmt(h):
-    return " -> ".join("%s(%s)" % (o[0], o[1] or "Q") for o in h)
+    return " -> ".join(("set_params(%s)" % o[1]) if o[0] == "set" else "%s(%s)" % (o[0], o[1] or "Q") for o in h)
 
 
 def _fmto(o):
